@@ -56,7 +56,7 @@ def check_allocator(ctx: Ctx, chk, f, V: str) -> None:
     else:
         chk.refute("RANGE-1", "aiomysensors.model.const.MAX_NODE_ID", f"MAX_NODE_ID evaluates to {max_id!r}, the statement's highest node id is 254: {'the too-many-nodes error is raised while id ' + str(max_id + 1) + '..254 are still free' if isinstance(max_id, int) and max_id < 254 else 'ids outside 1..254 can be handed out'}", cm.relpath)
     # ---- locate the id variable: the key of the store into gateway.nodes
-    stores = [n for n in ctx.own_nodes(f) if isinstance(n, ast.Assign) and any(isinstance(t, ast.Subscript) and norm(t.value) == "gateway.nodes" for t in n.targets)]
+    stores = [n for n in ctx.own_nodes(f) if isinstance(n, ast.Assign) and any(isinstance(t, ast.Subscript) and cn.canon(t.value) == "gateway.nodes" for t in n.targets)]  # also through a local alias of the registry
     if len(stores) != 1:
         raise AnalysisError(f"C11: expected one store into gateway.nodes in {f.fq}, found {len(stores)}")
     store = stores[0]
@@ -255,7 +255,7 @@ def range_pick(ctx: Ctx, f, e: ast.expr):
         else:
             return None
     var = gen.target.id
-    has_filter = any(isinstance(c, ast.Compare) and len(c.ops) == 1 and isinstance(c.ops[0], ast.NotIn) and norm(c.left) == var and norm(c.comparators[0]) == "gateway.nodes" for c in gen.ifs)
+    has_filter = any(isinstance(c, ast.Compare) and len(c.ops) == 1 and isinstance(c.ops[0], ast.NotIn) and norm(c.left) == var and Canon(ctx.I, f).canon(c.comparators[0]) == "gateway.nodes" for c in gen.ifs)
     return lo, hi, has_filter
 
 
@@ -306,7 +306,7 @@ def search_shape(ctx: Ctx, f, alloc: ast.expr):
         return None
     lo, hi = (0, vals[0]) if len(vals) == 1 else (vals[0], vals[1])
     v = gen.target.id
-    has_filter = any(isinstance(c, ast.Compare) and len(c.ops) == 1 and isinstance(c.ops[0], ast.NotIn) and norm(c.left) == v and norm(c.comparators[0]) == "gateway.nodes" for c in gen.ifs)
+    has_filter = any(isinstance(c, ast.Compare) and len(c.ops) == 1 and isinstance(c.ops[0], ast.NotIn) and norm(c.left) == v and Canon(ctx.I, f).canon(c.comparators[0]) == "gateway.nodes" for c in gen.ifs)
     return lo, hi, (alloc.args[1] if len(alloc.args) == 2 else None), has_filter
 
 
